@@ -1004,15 +1004,6 @@ theorem carryIdentity_id (up : Bool) (id : Identity) (h : valuesCarried up id = 
   cases id
   simp_all [carryIdentity]
 
-theorem lowerKeys_id (id : Identity) (h : extraKeysLower id = true) : lowerKeys id = id := by
-  simp only [extraKeysLower, List.all_eq_true] at h
-  have he : id.extra.map (fun e => (toLower e.1, e.2)) = id.extra := by
-    apply map_id_of_forall
-    intro e he
-    rw [toLower_id_of_noUpper e.1 (by simpa using h e he)]
-  cases id
-  simp_all [lowerKeys]
-
 theorem multimapAgree_of_values (a b : Headers) (h : ∀ k, values a k = values b k) : multimapAgree a b = true := by
   simp only [multimapAgree, List.all_eq_true, beq_iff_eq]
   intro e _
